@@ -66,7 +66,8 @@ def main(argv=None):
     known = findings.known_for(prop)
     nviol = 0
     lines = []
-    os.makedirs(os.path.join(ROOT, "replays"), exist_ok=True)
+    OUT = evidence.out_root()
+    os.makedirs(os.path.join(OUT, "replays"), exist_ok=True)
     for key in sorted(acc.viol):
         v = acc.viol[key]
         if key in known:
@@ -88,6 +89,8 @@ def main(argv=None):
                 rec["replay_error"] = "%s: %s" % (type(e).__name__, e)
         digest = hashlib.sha256(json.dumps(rec, sort_keys=True).encode()).hexdigest()[:10]
         path = os.path.join("replays", "%s-%s-%s.json" % (prop, key.split("/")[-1][:40].replace(" ", "_"), digest))
+        if OUT != ROOT:
+            path = os.path.join(OUT, path)
         with open(os.path.join(ROOT, path), "w") as f:
             json.dump(rec, f, indent=1, sort_keys=True)
         lines.append("VIOLATION property=%s replay=%s  # %s x%d: %s" %
@@ -106,7 +109,7 @@ def main(argv=None):
         print("EVIDENCE-PROBLEM:", p)
     for l in lines:
         print(l)
-    print("evidence:", os.path.relpath(path, ROOT))
+    print("evidence:", os.path.relpath(path, ROOT) if OUT == ROOT else path)
     return 1 if nviol else 0
 
 
